@@ -1,13 +1,14 @@
 #!/bin/bash
 # usage: seedcheck.sh [tier] <seed-id>...   (default tier quick; no ids = all)
 # applies seeded/<id>/patch.diff to /repo, runs the check of the property it breaks, restores /repo.
+[ -z "$VERIF_NOLOCK" ] && exec env VERIF_NOLOCK=1 flock -x /tmp/.verif-repo.lock "$0" "$@"
 tier=quick; case "$1" in quick|thorough) tier=$1; shift;; esac
 cd "$(dirname "$0")"
 ids=${@:-$(ls seeded | grep '^S-')}
 for sid in $ids; do
   prop=$(python3 -c "import json;print(json.load(open('seeded/$sid/meta.json'))['breaks_property'])")
   git -C /repo diff --quiet || { echo "/repo dirty"; exit 2; }
-  git -C /repo apply "seeded/$sid/patch.diff" || { echo "$sid: patch does not apply"; continue; }
+  git -C /repo apply "$PWD/seeded/$sid/patch.diff" || { echo "$sid: patch does not apply"; continue; }
   out=$(./check $prop $tier 2>&1); rc=$?
   git -C /repo checkout -- .
   echo "$sid $prop $tier rc=$rc $(echo "$out" | grep -m1 -o 'VIOLATION C[0-9]*/[^:]*' | head -1)"
